@@ -50,9 +50,13 @@ def plan(tier, seed):
     maxlen = 7 if tier == "quick" else 10
     specs = [{"mode": "grid", "len": n} for n in range(maxlen + 1)]
     specs.append({"mode": "nonarray"})
-    big = [1000, 1024, 4096, 8192, 8193, 65536, 70000] if tier == "quick" else \
-        [1000, 1023, 1024, 1025, 4095, 4096, 4097, 8191, 8192, 8193, 10000, 16384, 16385, 65535, 65536, 65537, 70000, 200000]
+    big = [1000, 1024, 4096, 8192, 8193, 65536, 70000, 131072, 131073, 140000] if tier == "quick" else \
+        [1000, 1023, 1024, 1025, 4095, 4096, 4097, 8191, 8192, 8193, 10000, 16384, 16385, 65535, 65536, 65537, 70000, 131071, 131072, 131073, 200000, 262143, 262144, 262145, 300000, 1048577]
     specs += [{"mode": "big", "len": n} for n in big]
+    from vlib.runner import INTERPRETERS
+    for name in INTERPRETERS:
+        specs.append({"mode": "grid", "len": 3, "interp": name})
+        specs.append({"mode": "hyp", "n": 150, "interp": name})
     nh = 4 if tier == "quick" else 16
     per = 750 if tier == "quick" else 10000
     specs += [{"mode": "hyp", "n": per} for _ in range(nh)]
@@ -174,13 +178,24 @@ def minimise(case, failure, tier):
         f2 = examine(c2)
         return (c2, f2) if f2 and f2["bucket"] == bucket else None
 
+    def size(c):
+        d = c["doc"]
+        return (len(d) if isinstance(d, (list, dict)) else 0,
+                sum(abs(v) for v in c["sel"][1:] if isinstance(v, int)),
+                sum(1 for v in c["sel"][1:] if v is not None))
+
     best = attempt(sel, doc) or (case, failure)
     changed = True
-    while changed:
+    budget = 400            # predicate evaluations; a 10^5-element document must not be shrunk one element at a time
+    while changed and budget > 0:
         changed = False
         csel, cdoc = best[0]["sel"], best[0]["doc"]
         cands = []
         if isinstance(cdoc, list) and cdoc:
+            if len(cdoc) > 16:
+                cands.append((csel, cdoc[: len(cdoc) // 2]))
+                cands.append((csel, cdoc[: len(cdoc) - len(cdoc) // 8]))
+                cands.append((csel, cdoc[: len(cdoc) - len(cdoc) // 64 - 1]))
             cands.append((csel, cdoc[:-1]))
         for k in range(1, len(csel)):
             v = csel[k]
@@ -194,8 +209,11 @@ def minimise(case, failure, tier):
                 s2[k] = None
                 cands.append((s2, cdoc))
         for s2, d2 in cands:
+            budget -= 40 if isinstance(d2, list) and len(d2) > 20000 else 1
+            if budget <= 0:
+                break
             r = attempt(s2, d2)
-            if r and (len(str(r[0])) < len(str(best[0]))):
+            if r and size(r[0]) < size(best[0]):
                 best = r
                 changed = True
                 break
